@@ -77,6 +77,8 @@ namespace Gotlcp.Go
 /-- a hash algorithm (`func() hash.Hash`): `sm3.New`, `sha256.New` -/
 inductive HashAlg where
   | sm3 | sha256
+  /-- no hash at all: the `alg` of a nil `hash.Hash` -/
+  | none
 deriving Repr, DecidableEq
 
 /-- Library functions the translator models by a parameter: the generated definitions that call
@@ -97,5 +99,40 @@ deriving Repr, DecidableEq
 
 /-- `subtle.ConstantTimeCompare(x, y)`: 1 when equal, else 0 (timing is not modelled) -/
 def constantTimeCompare (x y : List (BitVec 8)) : Int := if x = y then 1 else 0
+
+/-- `subtle.ConstantTimeSelect(v, x, y)`, the library's own expression `^(v-1)&x | (v-1)&y` on `int` -/
+def constantTimeSelect (v x y : Int) : Int := orInt (andInt (xorInt (v - 1) (-1)) x) (andInt (v - 1) y)
+
+/-- `h != nil` for a `hash.Hash` -/
+def Hmac.present (h : Hmac) : Bool := h.alg != .none
+
+/-- `h.Size()`: 32 for HMAC-SM3 and HMAC-SHA256 (library knowledge); a nil `hash.Hash` panics -/
+def hashSize (h : Hmac) : Except String Int :=
+  if h.alg = .none then .error "invalid memory address or nil pointer dereference" else .ok 32
+
+/-- a Go `error` value as far as the translated code can tell them apart: an `alert` (the
+package's own error type, `type alert uint8`) or some other, opaque, error.  `error` itself
+is `Option Error` (`nil` = `none`). -/
+inductive Error where
+  | alert (a : BitVec 8)
+  | other
+deriving Repr, DecidableEq
+
+/-- The record ciphers of the receive path, modelled by parameters (as `Extern` does for HMAC):
+the generated definitions that call them take `(rx : RxExtern)` and the theorems quantify over
+every `rx`.  The key is part of the cipher object and hence of the function. -/
+structure RxExtern where
+  /-- `cipher.Stream.XORKeyStream`: the output for this input (same length in the library) -/
+  xorKeyStream : List (BitVec 8) → List (BitVec 8)
+  /-- `cipher.AEAD.Open(_, nonce, ciphertext, additionalData)` succeeds -/
+  aeadOk : List (BitVec 8) → List (BitVec 8) → List (BitVec 8) → Bool
+  /-- … and the plaintext it then appends -/
+  aeadPlain : List (BitVec 8) → List (BitVec 8) → List (BitVec 8) → List (BitVec 8)
+  /-- CBC decryption of whole blocks under the given IV (same length in the library) -/
+  cbcDecrypt : List (BitVec 8) → List (BitVec 8) → List (BitVec 8)
+  /-- `s != nil` for a byte slice: nil and empty slices are the same `List`, so the outcome of
+  the test is a parameter (sound for code whose results do not depend on it, which the
+  theorems establish by holding for every `rx`) -/
+  nonNil : List (BitVec 8) → Bool
 
 end Gotlcp.Go
